@@ -34,7 +34,7 @@ def orthonormal_eig(unitary):
 
 
 def u2_to_su2(u_2):
-    phase_factor = np.conj(np.linalg.det(u_2) ** (-1 / u_2.shape[0]))
+    phase_factor = np.conj(complex(np.linalg.det(u_2)) ** (-1 / u_2.shape[0]))
     su_2 = u_2 / phase_factor
     return su_2, phase(phase_factor)
 
